@@ -40,7 +40,7 @@ void h_sha1_update(void) {
 #ifdef VERIF_LEN_WRAPS
     V_COVER(((in.c.count[0] >> 3) & 63) == 1 && in.len == 0xffffffffu); V_COVER(((in.c.count[0] >> 3) & 63) == 63);
 #elif defined(VERIF_CASE_NOBLOCK)
-    V_COVER(g_tb_total == in.g.tb_total && in.len > 0); V_COVER(in.len == 0); V_COVER(c->count[1] == in.c.count[1] + 1);
+    V_COVER(g_tb_total == in.g.tb_total && in.len > 0); V_COVER(in.len == 0);   /* no carry into count[1] is possible without completing a block */
 #else
     V_COVER(g_tb_total == in.g.tb_total + 1 && ((in.c.count[0] >> 3) & 63) > 0);
     V_COVER(g_tb_total == in.g.tb_total + 3 && ((c->count[0] >> 3) & 63) == 5); V_COVER(g_tby_seen == in.g.tby_seen + 1 && in.len > 200);
